@@ -1,7 +1,9 @@
 """C12 — balanced reads equal raw values times the two bin weights.
 
 Correspondence: Cooler.matrix(balance=..., divisive_weights=..., sparse/as_pixels)[window] against the Gallina model
-(coq/Model/Balanced.v, exact rationals, None = NaN) on ALL windows of small matrices with several weight columns.
+(coq/Model/Balanced.v, exact rationals, None = NaN) on ALL windows of small matrices with several weight columns, and
+against the primitive-float model (coq/Model/BalancedF.v) BIT FOR BIT, including zero / infinite / negative /
+subnormal / overflowing weights that the rational model excludes.
 Property oracle (independent of the query code): count x w(row bin) x w(col bin) computed with fractions from the
 raw stored columns; floats are compared with the exact rational within 4 ulp (two float multiplications).
 """
@@ -25,9 +27,15 @@ RULE = ("coolers with n<=4 (quick) / n<=5 (thorough) bins, symmetric-upper and s
         "one evaluation = one (cooler, option set, window, form) query; non-trivial = non-empty window on a non-empty matrix; "
         "distinct by (cooler, options, window)")
 TRUSTED = ["h5py raw reads of pixel columns, bin1_offset and the weight columns (model input and oracle reference)"]
-ASSUMPTIONS = ["a float64 product of three factors differs from the exact rational product by at most 4 ulp (two roundings); "
-               "weights used with divisive=True are non-zero (1/0 = inf is outside the claim)"]
-RESIDUE = ["floating-point rounding of the two multiplications is not modelled (exact rationals); `cooler dump -b` is covered by C16"]
+ASSUMPTIONS = ["rational pass: a float64 product of three factors differs from the exact rational product by at most 4 ulp (two roundings), "
+               "weights used with divisive=True are non-zero; binary64 pass: no tolerance — Coq's primitive floats and numpy's float64 are both "
+               "IEEE-754 binary64 with round-to-nearest-even, integer counts convert exactly below 2^53 and with one rounding above"]
+RESIDUE = ["`cooler dump -b` is covered by C16; NaN payloads and the sign of NaN are not compared (NaN is one class)"]
+# Print Assumptions lists the kernel's primitive integers/floats as "Axioms:" (they are primitives, not ours) and, for
+# C12_float_masked_bin_gives_nan only, the standard library's IEEE statements Floats.FloatAxioms.mul_spec / div_spec
+_PRIMS = ["int", "float", "sub", "lsl", "lsr", "lor", "land", "eqb", "ltb", "opp", "abs", "mul", "div", "of_uint63", "normfr_mantissa", "frshiftexp"]
+ALLOW_AXIOMS = tuple(_PRIMS + ["PrimInt63." + x for x in _PRIMS] + ["PrimFloat." + x for x in _PRIMS] + ["Uint63." + x for x in _PRIMS]
+                     + ["FloatAxioms.mul_spec", "FloatAxioms.div_spec"])
 
 NAMES = ["weight", "KR", "VC", "VC_SQRT", "w2"]
 REL = 1e-12
@@ -221,6 +229,174 @@ def _worker(arg):
     return res
 
 
+# ---------------------------------------------------------------------------------------------------------------
+# binary64, bit for bit: the primitive-float model (coq/Model/BalancedF.v) against the implementation's floats
+def fcode(x):
+    """(is NaN, signed infinity, signed integer code of the bit pattern of a finite value) — mirrors BalancedF.fcode"""
+    x = float(x)
+    if math.isnan(x):
+        return (1, 0, 0)
+    if math.isinf(x):
+        return (0, 1 if x > 0 else -1, 0)
+    if x == 0.0:
+        return (0, 0, 0)
+    m, e = math.frexp(abs(x))
+    M, E = int(m * (1 << 53)), e - 53
+    if E < -1074:
+        M >>= (-1074 - E)
+        E = -1074
+    return (0, 0, (-1 if x < 0 else 1) * (M * 4096 + (E + 1100)))
+
+
+def fsum(cells):
+    a = b_ = c = 0
+    for coef, x in cells:
+        n, i, v = fcode(x)
+        a += n
+        b_ += i * coef
+        c += coef * v
+    return a, b_, c
+
+
+def flit(x):
+    if x is None or math.isnan(x):
+        return "PrimFloat.nan"
+    if math.isinf(x):
+        return "PrimFloat.infinity" if x > 0 else "PrimFloat.neg_infinity"
+    h = float(x).hex()
+    return f"({h})%float" if not h.startswith("-") else f"(- {h[1:]})%float"
+
+
+def bits_eq(a, b_):
+    a, b_ = float(a), float(b_)
+    return (math.isnan(a) and math.isnan(b_)) or (a == b_ and math.copysign(1, a) == math.copysign(1, b_))
+
+
+def _fworker(arg):
+    """float checksums of every (option, form, window) + an independent float oracle: the products in numpy's order,
+    computed with Python floats from the raw stored columns"""
+    path, case = arg
+    import h5py
+    import pandas as pd
+    import cooler
+    n = case["n"]
+    df = pd.DataFrame(case["pixels"], columns=["bin1_id", "bin2_id", "count"]).astype(np.int64)
+    bins = make_bins(n)
+    for name, vals in case["weights"].items():
+        bins[name] = [np.nan if v is None else v for v in vals]
+    cooler.create_cooler(path, bins, df, symmetric_upper=case["symm"], dtypes={"count": np.int64})
+    with h5py.File(path, "r") as f:
+        b1 = f["pixels/bin1_id"][:].tolist(); b2 = f["pixels/bin2_id"][:].tolist(); cnt = f["pixels/count"][:].tolist()
+        off = f["indexes/bin1_offset"][:].tolist()
+        wraw = {name: [float(v) for v in f["bins/" + name][:]] for name in case["weights"]}
+    F = [[0] * n for _ in range(n)]
+    for r, c, v in zip(b1, b2, cnt):
+        F[r][c] += v
+        if case["symm"] and r != c:
+            F[c][r] += v
+    stored = list(zip(range(len(b1)), b1, b2, cnt))
+    res = {"raw": [b1, b2, cnt, off], "wraw": wraw, "cks": [], "fails": [], "nq": 0}
+    wins = windows(n)
+    clr = cooler.Cooler(path)
+    with np.errstate(all="ignore"):
+        for bal, dw in case["options"]:
+            name = "weight" if bal is True else bal
+            divisive = dw if dw is not None else (name in ("KR", "VC", "VC_SQRT"))
+            wf = None
+            if name in wraw:
+                wf = [float(np.float64(1.0) / np.float64(v)) if divisive else v for v in wraw[name]]
+            row = {"dense": [], "sparse": [], "pixels": []}
+            for form in ("dense", "sparse", "pixels"):
+                kw = dict(balance=bal, chunksize=case["chunk"])
+                if dw is not None:
+                    kw["divisive_weights"] = dw
+                if form == "sparse":
+                    kw["sparse"] = True
+                if form == "pixels":
+                    kw.update(as_pixels=True, join=False, ignore_index=False)
+                sel = clr.matrix(**kw)
+                for (i0, i1, j0, j1) in wins:
+                    res["nq"] += 1
+                    try:
+                        got = sel[i0:i1, j0:j1]
+                    except ValueError:
+                        row[form].append((-1, 0, 0, 0))
+                        continue
+                    except Exception as e:
+                        row[form].append((-9, 0, 0, 0))
+                        if len(res["fails"]) < 4:
+                            res["fails"].append({"options": [bal, dw], "form": form, "window": [i0, i1, j0, j1], "error": repr(e)})
+                        continue
+                    if wf is None:
+                        row[form].append((-8, 0, 0, 0))
+                        continue
+                    ok = True
+                    if form == "dense":
+                        ok = got.shape == (i1 - i0, j1 - j0)
+                        cells = []
+                        for a in range(i1 - i0):
+                            for b_ in range(j1 - j0):
+                                g = float(got[a, b_]) if ok else float("nan")
+                                ok = ok and bits_eq(g, float(F[i0 + a][j0 + b_]) * (wf[i0 + a] * wf[j0 + b_]))
+                                cells.append((1 + 31 * a + 1009 * b_, g))
+                        s3 = fsum(cells)
+                        ck = (1, s3[0], s3[1], s3[2])
+                    elif form == "sparse":
+                        ents = sorted(zip((got.row + i0).tolist(), (got.col + j0).tolist(), got.data.tolist()))
+                        for r, c, g in ents:
+                            ok = ok and bits_eq(g, (wf[r] * wf[c]) * float(F[r][c]))
+                        s3 = fsum([(1 + 7 * r + 131 * c, g) for r, c, g in ents])
+                        ck = (2, s3[0] + 1000 * len(ents), s3[1], s3[2])
+                    else:
+                        bal_col = got["balanced"].tolist() if "balanced" in got.columns else None
+                        recs = list(zip(got["bin1_id"].tolist(), got["bin2_id"].tolist(), got["count"].tolist(), bal_col or [float("nan")] * len(got)))
+                        ok = bal_col is not None
+                        for r, c, v, g in recs:
+                            ok = ok and bits_eq(g, (wf[r] * wf[c]) * float(v))
+                        s3 = fsum([((k + 1) * (1 + 7 * r + 131 * c), g) for k, (r, c, v, g) in enumerate(recs)])
+                        ck = (3, s3[0] + 1000 * len(recs), s3[1], s3[2])
+                    row[form].append(ck)
+                    if not ok and len(res["fails"]) < 4:
+                        res["fails"].append({"options": [bal, dw], "form": form, "window": [i0, i1, j0, j1], "float_oracle": True,
+                                             "got": np.asarray(got.toarray() if form == "sparse" else got).tolist() if form != "pixels" else got.to_dict("list")})
+            res["cks"].append(row)
+    os.unlink(path)
+    return res
+
+
+def fmodel_exprs(case, r):
+    b1, b2, cnt, off = r["raw"]
+    px = C.lst([C.tup(C.tup(C.z(a), C.z(b_)), C.z(v)) for a, b_, v in zip(b1, b2, cnt)])
+    exprs = []
+    for bal, dw in case["options"]:
+        name = "weight" if bal is True else bal
+        balance = "(Some None)" if bal is True else f"(Some (Some {C.s(bal)}))"
+        dwl = "None" if dw is None else f"(Some {C.b(dw)})"
+        w = "(Some None)" if name not in r["wraw"] else "(Some (Some " + C.lst([flit(v) for v in r["wraw"][name]]) + "))"
+        for form in ("Dense", "Sparse", "AsPixels"):
+            exprs.append(f"all_window_fbal_cksums {C.z(case['n'])} {px} {C.zl(off)} {C.z(case['chunk'])} {C.b(case['symm'])} {form} {w} "
+                         f"(effective_divisive {balance} {dwl})")
+    return exprs
+
+
+def gen_float_cases(ctx, base):
+    """the rational cases again (rounding now compared exactly) plus weights the rational model excludes:
+    zeros of both signs, infinities, negative, subnormal and huge values (overflowing products)"""
+    rng = ctx.rng
+    special = [0.0, -0.0, float("inf"), float("-inf"), -1.5, 5e-324, 1e-310, 1.7e308, 1e200, 1e-200, 0.1, 1 / 3, 3.0000000000000004]
+    out = [dict(c, float_only=False) for c in base]
+    for k in range(6 if ctx.tier == "quick" else 24):
+        n = rng.choice([2, 3, 4])
+        symm = k % 3 != 2
+        cells = [(i, j) for i in range(n) for j in (range(i, n) if symm else range(n))]
+        pix = [[i, j, rng.choice([1, 2, 3, 7, 2 ** 31, 2 ** 53 + 1, 10 ** 15 + 1])] for (i, j) in cells if rng.random() < 0.7]
+        cols = {name: [None if rng.random() < 0.15 else rng.choice(special) for _ in range(n)] for name in NAMES}
+        grid = [(b, d) for b in [True, "KR", "VC_SQRT", "w2", "nope"] for d in [None, True, False]]
+        out.append({"n": n, "pixels": pix, "symm": symm, "weights": cols, "chunk": [1, 2, 10 ** 7][k % 3], "float_only": True,
+                    "options": [list(grid[(k * 4 + t * 3) % len(grid)]) for t in range(5)]})
+    return out
+
+
 def qlit(x):
     return "None" if x is None else "(Some " + C.q(Fraction(x)) + ")"
 
@@ -299,6 +475,36 @@ def run(ctx):
                           "history": f"case {pos + 1} of {len(grp)} created and queried at the same path in one process",
                           "previous_case_at_path": {kk: cases[grp[pos - 1]][kk] for kk in ("n", "pixels", "weights")} if pos else None},
                          {"detail": "balanced queries differ from the same cooler stored at a fresh path", "fails": r2["fails"][:2]}, None)
+    # binary64 pass: primitive-float model, bit for bit
+    fcases = gen_float_cases(ctx, cases)
+    with ProcessPoolExecutor(max_workers=int(os.environ.get("VERIF_JOBS", "8"))) as ex:
+        fres = list(ex.map(_fworker, [(str(ctx.tmp / f"f{k}.cool"), c) for k, c in enumerate(fcases)]))
+    fexprs, fown = [], []
+    for k, (c, r) in enumerate(zip(fcases, fres)):
+        fexprs += fmodel_exprs(c, r)
+        fown += [(k, oi, form) for oi in range(len(c["options"])) for form in ("dense", "sparse", "pixels")]
+    fmodel = C.coq_eval("From Cooler Require Import Model.Balanced Model.BalancedF.", fexprs, shard=12, tmpdir=ctx.tmp / "fmodel")
+    for (k, oi, form), mo in zip(fown, fmodel):
+        c, r = fcases[k], fres[k]
+        wins = windows(c["n"])
+        im = r["cks"][oi][form]
+        keys = [common.short_hash(("f", k, oi, w)) for w in wins if w[1] > w[0] and w[3] > w[2]] if c["pixels"] else []
+        ctx.count(len(wins), nontrivial_keys=keys, kind=f"binary64/{'special' if c['float_only'] else 'ordinary'} weights/{form}")
+        for w, a, b_ in zip(wins, im, mo):
+            if a[0] in (-1, -8, -9) and b_[0] == -1 and a[0] != -8:
+                continue
+            if tuple(a) != tuple(b_):
+                ctx.disagree("binary64 window checksum (tag, NaN cells, infinities, exact sum of bit-pattern codes)",
+                             {"n": c["n"], "pixels": c["pixels"], "symm": c["symm"], "weights": {kk: [None if v is None else float(v).hex() for v in vv] for kk, vv in c["weights"].items()},
+                              "options": c["options"][oi], "form": form, "window": list(w), "chunk": c["chunk"], "binary64": True},
+                             list(a), list(b_))
+                break
+    for c, r in zip(fcases, fres):
+        for f in r["fails"]:
+            ctx.fail({"n": c["n"], "pixels": c["pixels"], "symm": c["symm"], "weights": {kk: [None if v is None else float(v).hex() for v in vv] for kk, vv in c["weights"].items()},
+                      "chunk": c["chunk"], "options": f["options"], "form": f["form"], "window": f["window"], "binary64": True}, f, None)
+    ctx.extra["binary64_coolers"] = len(fcases)
+    ctx.extra["binary64_queries"] = sum(r["nq"] for r in fres)
     # source pin: the three conventional divisive names
     import cooler.api as api
     ctx.case({"fn": "_4DN_DIVISIVE_WEIGHTS"}, kind="pin")
